@@ -205,4 +205,39 @@ example (k : KeyW) (n : NonceW) (b : Bytes) (hb : b.length = 64) (x : UInt8) :
   simp only [specRun, h1, h2, hb]
   simp [specStep, limit]
 
+/-! ## 5. multi-block buffers (bufSize = 256: the arm64 / ppc64 / s390x ports) — overflow logic refuted
+
+  The control logic of XORKeyStream / SetCounter in chacha_generic.go is shared by all ports; only
+  `bufSize` and `xorKeyStreamBlocks` differ.  With `m = bufSize/64 = 4` (xorKeyStreamBlocks modelled by the
+  generic loop, i.e. a 32-bit counter that advances by one per block) the refinement statement is FALSE:
+  when a partial buffer is filled at counter 2^32−4 the code takes the multi-block path
+  (`uint64(s.counter)+blocksPerBuf > 1<<32` is false for equality), the counter wraps to 0 and `overflow`
+  is not set (numBlocks was 1), so the next call neither panics nor stops: it re-uses block 0.
+  Not reachable on amd64/purego (bufSize = 64), hence not observable by the correspondence run here. -/
+
+/-- the statement of `history_from_new` for bufSize = 256 -/
+def multiblock_refines : Prop :=
+  ∀ (k : KeyW) (n : NonceW) (ops : List Op), run 4 (mkCipher 4 k n) ops = specRun k n 0 ops
+
+def wrapOps : List Op := [.setCounter 0xfffffffc, .xor (zeros 10), .xor (zeros 300)]
+
+set_option maxRecDepth 100000 in
+/-- the specification panics (byte 2^38 would be needed) … -/
+theorem wrap_spec_panics : (specRun ⟨0,0,0,0,0,0,0,0⟩ ⟨0,0,0⟩ 0 wrapOps).2 = some .overflow := by decide +kernel
+
+set_option maxRecDepth 100000 in
+/-- … the bufSize = 256 code does not, and the last 54 bytes it produces are keystream block 0 again -/
+theorem wrap_impl_reuses_block0 :
+    (run 4 (mkCipher 4 ⟨0,0,0,0,0,0,0,0⟩ ⟨0,0,0⟩) wrapOps).2 = none ∧
+    ((run 4 (mkCipher 4 ⟨0,0,0,0,0,0,0,0⟩ ⟨0,0,0⟩) wrapOps).1.getD 2 []).drop 246 =
+      (blockW ⟨0,0,0,0,0,0,0,0⟩ 0 ⟨0,0,0⟩).take 54 := by decide +kernel
+
+theorem multiblock_refuted : ¬ multiblock_refines := by
+  intro h
+  have h1 := wrap_spec_panics
+  have h2 := wrap_impl_reuses_block0.1
+  rw [← h ⟨0,0,0,0,0,0,0,0⟩ ⟨0,0,0⟩ wrapOps] at h1
+  rw [h2] at h1
+  cases h1
+
 end XC.C03
